@@ -1538,8 +1538,12 @@ M('C07', 'original defect: from_Bflat never canonicalises a one-site unit cell',
 M('C17', 'original defect: LegCharge.from_hdf5 (compact) reads the last row of a possibly empty array', CH,
   "            slices[1:] = blockcharges[:, 1]  # (works for a leg without any block as well)", "            slices[-1] = blockcharges[-1, 1]",
   'HDF5-empty-safe')
-M('C17', 'original defect: MultiSpeciesLattice inherits the attribute-wise loader of Lattice', 'tenpy/models/lattice.py',
+M('C17', 'MultiSpeciesLattice.from_hdf5 forgets N_species', 'tenpy/models/lattice.py',
   "        obj.simple_lattice = hdf5_loader.load(subpath + 'simple_lattice')\n        obj.N_species = hdf5_loader.load(subpath + 'N_species')\n", "        obj.simple_lattice = hdf5_loader.load(subpath + 'simple_lattice')\n",
+  'HDF5-restore')
+
+M('C17', 'original defect: MultiSpeciesLattice inherits the attribute-wise loader of Lattice', 'tenpy/models/lattice.py',
+  "    def save_hdf5(self, hdf5_saver, h5gr, subpath):\n        \"\"\"Export `self` into a HDF5 file.\n\n        In addition to the data saved by :meth:`Lattice.save_hdf5`, it saves\n        :attr:`simple_lattice`, :attr:`N_species`, :attr:`species_names` and :attr:`simple_Lu`\n        under these names.\n        \"\"\"\n        super().save_hdf5(hdf5_saver, h5gr, subpath)\n        hdf5_saver.save(self.simple_lattice, subpath + 'simple_lattice')\n        hdf5_saver.save(self.N_species, subpath + 'N_species')\n        hdf5_saver.save(self.species_names, subpath + 'species_names')\n        hdf5_saver.save(self.simple_Lu, subpath + 'simple_Lu')\n\n    @classmethod\n    def from_hdf5(cls, hdf5_loader, h5gr, subpath):\n        \"\"\"Load instance from a HDF5 file; see :meth:`save_hdf5`.\"\"\"\n        obj = super().from_hdf5(hdf5_loader, h5gr, subpath)\n        obj.simple_lattice = hdf5_loader.load(subpath + 'simple_lattice')\n        obj.N_species = hdf5_loader.load(subpath + 'N_species')\n        obj.species_names = hdf5_loader.load(subpath + 'species_names')\n        obj.simple_Lu = hdf5_loader.load(subpath + 'simple_Lu')\n        return obj\n\n", '',
   'HDF5-inherited-loader')
 
 # ---------------------------------------------------------------- C16 / C19
